@@ -26,7 +26,9 @@ RULE = ("grammar-based streams: every command word x too few/too many arguments 
 QUERIES = [b"select count(x) from T group by y", b"", b"select", b"`", b"select `", b"select ` from T", b"select count(x", b"from T",
            b"select a from T where b == 1 and c eq \"x y\"", b"select a,b from T limit x", b"select max(v) from T rorder by",
            b"select a from T set $x = md5sum(y)", b"select a from T set $x = f(", b"select a group", b"select a from T outfile a b c",
-           b"select a where a", b"select count(a),count(a) from T order by count(a) interval 1 limit 2 logformat csv"]
+           b"select a where a", b"select count(a),count(a) from T order by count(a) interval 1 limit 2 logformat csv",
+           b"select x)y(z from T", b"select count)$line( from T", b"select )( from T", b"select )x from T", b"select a(b)c(d) from T",
+           b"select count(x)) from T", b"select ((x from T", b"select sum(x from T group by )("]
 WORDS = [b"cat", b"grep", b"tail", b"map", b".ack", b"health", b"", b"CAT", b"cat:", b"x"]
 OPTS = [b"", b"quiet=true", b"plain=true", b"serverless=true", b"before=2", b"after=1", b"max=3", b"before=-1", b"max=x", b"before",
         b"=", b"k=v=w", b"before=base64%Mg==", b"after=base64%!!", b"before=base64%", b"max=99999999999999999999", b"a=b"]
